@@ -37,7 +37,7 @@ RULE = ("generated type definitions (1-4 declared fields, serializers from a poo
         "serialization_failure per call). Typed child actions / messages failing inside an action bound to another logger object report to the destinations. In 30% of the cases "
         "the failing serializers raise one stored exception object again and again. Half of the Message objects made by calling a MessageType pass "
         "through copy.copy / copy.deepcopy (alone, inside a copied container or object graph, copied twice, or copied and then bound) before "
-        ".write(): the copy is serialized and reported exactly like the original. In one case in eight the failing serializers raise KeyboardInterrupt, SystemExit, GeneratorExit or an application's own BaseException class ("if a serializer raises"): contained and reported like any other failure. Part 'startup': the same generated cases in processes that "
+        ".write(): the copy is serialized and reported exactly like the original. In one case in eight the failing serializers raise KeyboardInterrupt, SystemExit, GeneratorExit or an application's own BaseException class ('if a serializer raises'): contained and reported like any other failure. Part 'startup': the same generated cases in processes that "
         "have never added a destination - the typed call (after 1-4 plain messages) is made BEFORE the first add_destinations, the "
         "destination is added afterwards and the replayed start-up buffer is judged by the same oracle (counted only when the plain "
         "messages logged just before were replayed too). "
